@@ -93,6 +93,45 @@ func HopMACFull(key []byte, beta uint16, ts uint32, exp uint8, in, eg uint16) [1
 	return CMAC(key, b[:])
 }
 
+// EpicHVF computes an EPIC hop validation field: the first 4 bytes of the AES-CBC-MAC (zero IV),
+// keyed with the hop's full 16-byte MAC sigma, over
+// flags(1: source host address length bits) timestamp(4) EpicTS(4) Counter(4) SrcIA(8) SrcHost PayloadLen(2),
+// zero-padded to a multiple of 16 bytes. (The documentation draws the length bits at the top of the
+// flags byte; like the implementation on both the host and the router side, the low bits are used.)
+func EpicHVF(sigma [16]byte, sl uint8, ts, epicTS, counter uint32, srcIA uint64, srcHost []byte, payloadLen uint16) [4]byte {
+	in := make([]byte, 0, 64)
+	in = append(in, sl&3)
+	in = binary.BigEndian.AppendUint32(in, ts)
+	in = binary.BigEndian.AppendUint32(in, epicTS)
+	in = binary.BigEndian.AppendUint32(in, counter)
+	in = binary.BigEndian.AppendUint64(in, srcIA)
+	in = append(in, srcHost...)
+	in = binary.BigEndian.AppendUint16(in, payloadLen)
+	for len(in)%16 != 0 {
+		in = append(in, 0)
+	}
+	c, err := aes.NewCipher(sigma[:])
+	if err != nil {
+		panic(err)
+	}
+	var x [16]byte
+	for i := 0; i < len(in); i += 16 {
+		for j := 0; j < 16; j++ {
+			x[j] ^= in[i+j]
+		}
+		c.Encrypt(x[:], x[:])
+	}
+	var out [4]byte
+	copy(out[:], x[:4])
+	return out
+}
+
+// EpicSenderTime is the instant an EPIC packet claims to have been sent at:
+// segment timestamp + (1+EpicTS) * 21 microseconds.
+func EpicSenderTime(ts, epicTS uint32) time.Time {
+	return time.Unix(int64(ts), 0).Add(time.Duration(int64(epicTS)+1) * 21 * time.Microsecond)
+}
+
 // ExpiryOf returns timestamp + (1+ExpTime) * 24h/256.
 func ExpiryOf(ts uint32, exp uint8) time.Time {
 	unit := 24 * time.Hour / 256
